@@ -46,10 +46,14 @@ type c05Case struct {
 	// container: the program is started with two listed descriptors only (report pipe, release pipe): the unfilled third
 	// stdio slot must not hold anything of the init's - its own stdio are host objects that are in no bind mount
 	FewFiles bool `json:",omitempty"`
+	// namespace runner: the first directory bind source lives on a mount with shared propagation, and while the program
+	// runs the host mounts something below that source: nothing of that may appear in the sandbox
+	Shared bool `json:",omitempty"`
 }
 
 func c05GenCase(rt *rapid.T) c05Case {
-	c := c05Case{Impl: rapid.SampledFrom([]string{"unshare", "container"}).Draw(rt, "impl"), DevNull: rapid.IntRange(0, 7).Draw(rt, "devnull") != 0}
+	c := c05Case{Impl: rapid.SampledFrom([]string{"unshare", "container"}).Draw(rt, "impl"), DevNull: rapid.IntRange(0, 7).Draw(rt, "devnull") != 0,
+		Shared: rapid.IntRange(0, 3).Draw(rt, "sharedsrc") == 0}
 	n := rapid.IntRange(0, 7).Draw(rt, "n")
 	// one case in six: a table that is empty once the entries with a missing source are dropped
 	nothingLeft := rapid.IntRange(0, 5).Draw(rt, "nothingleft") == 0
@@ -260,7 +264,34 @@ func c05Run(c c05Case, dir string, rec *vh.Recorder) error {
 	os.RemoveAll(filepath.Join(dir, "secret"))
 	os.MkdirAll(filepath.Join(dir, "secret"), 0o755)
 	os.WriteFile(filepath.Join(dir, "secret", "SECRETMARKER"), []byte("host secret"), 0o644)
-	srcDir := func(i int) string { return filepath.Join(dir, "src", fmt.Sprintf("s%d", i)) }
+	sharedIdx, sharedBase := -1, filepath.Join(dir, "shared")
+	if c.Shared && c.Impl == "unshare" {
+		for i, m := range c.Mounts {
+			if m.Kind == "bind-ro-dir" || m.Kind == "bind-rw-dir" {
+				sharedIdx = i
+				break
+			}
+		}
+	}
+	if sharedIdx >= 0 {
+		os.MkdirAll(sharedBase, 0o755)
+		if err := unix.Mount("tmpfs", sharedBase, "tmpfs", 0, ""); err != nil {
+			return vh.Infraf("shared tmpfs: %v", err)
+		}
+		defer func() {
+			unix.Unmount(filepath.Join(sharedBase, "s", "sub"), unix.MNT_DETACH)
+			unix.Unmount(sharedBase, unix.MNT_DETACH)
+		}()
+		if err := unix.Mount("", sharedBase, "", unix.MS_SHARED, ""); err != nil {
+			return vh.Infraf("make shared: %v", err)
+		}
+	}
+	srcDir := func(i int) string {
+		if i == sharedIdx {
+			return filepath.Join(sharedBase, "s")
+		}
+		return filepath.Join(dir, "src", fmt.Sprintf("s%d", i))
+	}
 	for i := range c.Mounts {
 		d := srcDir(i)
 		os.MkdirAll(filepath.Join(d, "sub"), 0o755)
@@ -423,6 +454,12 @@ func c05Run(c c05Case, dir string, rec *vh.Recorder) error {
 	}
 	var mountinfo string
 	inspect := func(pid int) {
+		if sharedIdx >= 0 {
+			// the host mounts something below the shared bind source while the program is alive
+			if err := unix.Mount("tmpfs", filepath.Join(srcDir(sharedIdx), "sub"), "tmpfs", 0, ""); err == nil {
+				rec.Class("host-mounts-below-a-shared-bind-source-while-the-program-runs", 1)
+			}
+		}
 		b, _ := os.ReadFile(fmt.Sprintf("/proc/%d/mountinfo", pid))
 		mountinfo = string(b)
 	}
